@@ -247,7 +247,9 @@ pub struct Env {
     pub rcomp: PathBuf,
     pub shim_so: PathBuf,
     /// wall-clock backstop per child in ms
-    pub timeout_ms: i32,
+    /// wall-clock backstop per compile; lowered after the first hangs of a run
+    pub timeout_ms: std::cell::Cell<i32>,
+    pub timeouts_seen: std::cell::Cell<u32>,
 }
 
 pub fn case_dir(env: &Env) -> PathBuf {
@@ -668,7 +670,7 @@ fn run_rcomp(env: &Env, target: &GrammarSrc, spec: &Spec, world: &World, l: &Lay
                 match child.try_wait() {
                     Ok(Some(st)) => break Some(st),
                     Ok(None) => {
-                        if waited_ms >= env.timeout_ms as i64 {
+                        if waited_ms >= env.timeout_ms.get() as i64 {
                             let _ = child.kill();
                             let _ = child.wait();
                             break None;
@@ -780,7 +782,7 @@ pub fn run_world_with(env: &Env, target: &GrammarSrc, spec: &Spec, world: &World
     let stale_parser = stale_bytes(world.stale, "parser");
     let mut out = match world.vehicle {
         Vehicle::Rcomp | Vehicle::RcompDir => run_rcomp(env, target, spec, world, &l),
-        _ => match fork_collect(env.timeout_ms, |wfd| { child_main(env, target, spec, world, &l, wfd) }) {
+        _ => match fork_collect(env.timeout_ms.get(), |wfd| { child_main(env, target, spec, world, &l, wfd) }) {
             Err(end) => Outcome {
                 class: match end {
                     crate::forkrun::ChildEnd::Abort(m) => Class::Abort(m),
@@ -835,6 +837,14 @@ pub fn run_world_with(env: &Env, target: &GrammarSrc, spec: &Spec, world: &World
         }
     }
     let _ = std::fs::remove_dir_all(&l.case);
+    if out.class == Class::Timeout {
+        // Hangs are established after two kills; do not spend a full
+        // backstop on each of the (possibly thousands of) cases that follow.
+        env.timeouts_seen.set(env.timeouts_seen.get() + 1);
+        if env.timeouts_seen.get() >= 2 {
+            env.timeout_ms.set(env.timeout_ms.get().min(15_000));
+        }
+    }
     out
 }
 
